@@ -163,3 +163,10 @@ Definition oracle (c : pcase) : bool := oracle_steps (snd c) [] [] [].
 (** Live rig: (answer delay in ms, bound in ms, HTTP status is 200, the body contains the packet). *)
 Definition live_oracle (c : Z * Z * bool * bool) : bool :=
   let '(delay, bound, st200, has) := c in st200 && has && (delay <? bound)%Z.
+
+(** Constructor-style builders for the generated case literals (much faster to elaborate than
+    nested tuple notations). *)
+Definition PO (sts : list hst) (ev : list nat) (q r : N) : hobs := (sts, ev, q, r).
+Definition PS (o : hop) (ob : hobs) : hop * hobs := (o, ob).
+Definition PC (n : nat) (l : list (hop * hobs)) : pcase := (n, l).
+Arguments PO sts ev (q r)%N.
